@@ -178,6 +178,75 @@ type pairCase struct {
 	Content int // 0 zeros, 1 ones, 2 counting pattern, 3 upper-case hrp + pattern
 }
 
+// ---- concurrent first use of a prefix ----
+
+type concCase struct {
+	Base   h.S   `json:"base"`   // trial j uses the prefix Base + decimal(j): never seen before by the process
+	Data   []h.B `json:"data"`   // one data string per goroutine
+	Trials int   `json:"trials"` // fresh prefixes per case
+}
+
+var concSerial int // makes every prefix of every case new to this process
+
+func checkConcurrent(c concCase) (h.Info, error) {
+	info := h.Info{Class: fmt.Sprintf("goroutines=%d", len(c.Data)), NT: true}
+	if ok, _, _ := hrpStatus(string(c.Base)); !ok {
+		return info, fmt.Errorf("PRECONDITION: invalid base prefix")
+	}
+	for j := 0; j < c.Trials; j++ {
+		concSerial++
+		hrp := fmt.Sprintf("%s%d", string(c.Base), concSerial)
+		want := make([]string, len(c.Data))
+		for g, d := range c.Data {
+			want[g] = ref.EncodeSymbols(ref.AsciiLower(hrp), ref.ToSymbols(d))
+			if _, _, up := hrpStatus(hrp); up {
+				want[g] = ref.AsciiUpper(want[g])
+			}
+			if len(want[g]) > 90 {
+				return info, fmt.Errorf("PRECONDITION: case too long")
+			}
+		}
+		err := h.Parallel(len(c.Data), func(g int) error {
+			for it := 0; it < 3; it++ {
+				got, err := bech32.Encode(hrp, c.Data[g])
+				if err != nil || got != want[g] {
+					return fmt.Errorf("goroutine %d of %d encoding with the prefix %q for the first time in this process (call %d): Encode(%q, %x) = %q, %v; BIP-173 reference %q", g, len(c.Data), hrp, it, hrp, []byte(c.Data[g]), got, err, want[g])
+				}
+				if dh, dd, err := bech32.Decode(got); err != nil || dh != ref.AsciiLower(hrp) || !bytes.Equal(dd, c.Data[g]) {
+					return fmt.Errorf("goroutine %d of %d (prefix %q new to the process): Decode(%q) = (%q, %x, %v)", g, len(c.Data), hrp, got, dh, dd, err)
+				}
+			}
+			return nil
+		})
+		if err != nil {
+			return info, err
+		}
+	}
+	return info, nil
+}
+
+func TestConcurrentFirstUse(t *testing.T) {
+	h.Run(t, h.Sub[concCase]{
+		Prop: "C05", Name: "concurrent-first-use", N: 100,
+		Gen: func(t *rapid.T) concCase {
+			c := concCase{Trials: 25}
+			hl := h.OneOf(t, "hl", 1, 4, 20, 60, 70)
+			base := bgen.HRP(t, hl)
+			if rapid.Bool().Draw(t, "upper") {
+				base = ref.AsciiUpper(base)
+			}
+			c.Base = h.S(base)
+			for i := h.OneOf(t, "g", 2, 4, 8); i > 0; i-- {
+				c.Data = append(c.Data, h.Bytes(t, "d", 0, 3))
+			}
+			return c
+		},
+		Check:   checkConcurrent,
+		Require: []string{"goroutines=2", "goroutines=4", "goroutines=8"},
+		Rule:    "schedules: 25 trials per case, each with a prefix (1..80 characters, either case) that this process has never encoded before; 2..8 goroutines released together encode their own data with that prefix (three calls each) and decode the result; every string = BIP-173 reference; all non-trivial",
+	})
+}
+
 func (p pairCase) build() encCase {
 	hrp := make([]byte, p.HL)
 	for i := range hrp {
